@@ -237,7 +237,11 @@ func (r *Run) c15Scenario(trans string, I, T time.Duration, name string, answer 
 			}
 			in = append(in, fmt.Sprintf("P.%d", m))
 		case "recovered":
-			in = append(in, "R")
+			m := ms(e.at)
+			if m < 0 {
+				m = 0
+			}
+			in = append(in, fmt.Sprintf("R.%d", m))
 			lastPingID = 0
 		case "ping":
 			npings++
@@ -343,6 +347,8 @@ func runC15(r *Run) {
 	}
 	r.c15Scenario("tcp", I, T, "answers-always-after-drop", always, 1800*time.Millisecond, 350*time.Millisecond, false)
 	r.c15AfterAuthRecovery()
+	r.c15StaleVerdict()
+	r.c15SlowButAnsweringAfterRecovery()
 	r.c15BusyButSilent()
 	r.c15HalfDeadButPinging()
 	for _, l := range c20SmallGzipKeepalive("ws") { // the heartbeat body carries the id also with a tiny gzip threshold
@@ -540,6 +546,179 @@ func (r *Run) c15AfterAuthRecovery() {
 	}
 	close(stop)
 	s.close()
+}
+
+// c15StaleVerdict: the keepalive forms its verdict ("no answer for longer than the timeout") outside the client's lock.
+// Here a tick forms it while the recovery from that very silence is still authenticating on the new connection, and
+// gets to act on it only after the recovery has completed (ka.after-check gate): the new connection's peer answers
+// everything and must not be recycled.
+func (r *Run) c15StaleVerdict() {
+	I, T := 100*time.Millisecond, 250*time.Millisecond
+	time.Sleep(I + 60*time.Millisecond)
+	hub.reset()
+	s := &session{tc: newTestClient(), v: 1, trans: "tcp"}
+	s.tcp = newTCPPeer()
+	stop := make(chan struct{})
+	var nconn int32
+	holdAuth := make(chan struct{}) // the second connection's session answer waits for this
+	go func() {
+		for {
+			pc := s.tcp.accept(5 * time.Second)
+			if pc == nil {
+				return
+			}
+			if !pc.readHandshake(time.Second) {
+				continue
+			}
+			ci := int(atomic.AddInt32(&nconn, 1)) - 1
+			go func() {
+				for {
+					select {
+					case <-stop:
+						return
+					default:
+					}
+					f := pc.readFrame(50 * time.Millisecond)
+					if f == nil {
+						if pc.closed {
+							return
+						}
+						continue
+					}
+					if f.Type != 1 {
+						continue
+					}
+					switch f.Cmd {
+					case 2, 3:
+						if ci == 1 {
+							select {
+							case <-holdAuth:
+							case <-time.After(3 * time.Second):
+							}
+						}
+						pc.send(respFrame(1, f.Cmd, f.Rid, 0, authRespBody("sess", 600000)))
+					case 1:
+						if ci > 0 { // the first connection never answers a heartbeat
+							pc.send(respFrame(1, 1, f.Rid, 0, f.Body))
+						}
+					}
+				}
+			}()
+		}
+	}()
+	// the peer drops connection 1 shortly before the third tick: the recovery is started by the connection's close
+	// callback (a recovery started by the keepalive itself would keep the keepalive goroutine busy until it is over)
+	go func() {
+		time.Sleep(2*I + 60*time.Millisecond)
+		s.tcp.mu.Lock()
+		var first *peerConn
+		if len(s.tcp.all) > 0 {
+			first = s.tcp.all[0]
+		}
+		s.tcp.mu.Unlock()
+		if first != nil {
+			first.close()
+		}
+	}()
+	g := hub.arm("ka.after-check", nil)
+	err := s.tc.dial(s.tcp.url(), 1, client.Keepalive(I), client.KeepaliveTimeout(T), client.DialTimeout(time.Second), client.AuthTimeout(3*time.Second),
+		client.WithAuthTokenGetter(func() (string, error) { return "tok", nil }))
+	if err == nil {
+		cs := "tcp I=100ms T=250ms, authenticated: connection 1 never answers a heartbeat and is dropped by the peer after 260 ms; the session answer on connection 2 is held until the tick at 300 ms has formed its verdict; that tick acts only after the recovery has completed; connection 2 answers everything"
+		if g.waitParked(3 * time.Second) {
+			close(holdAuth)
+			waitUntil(2*time.Second, func() bool { return s.tc.reconCount() >= 1 })
+			time.Sleep(30 * time.Millisecond) // the recovery has returned: bookkeeping reset, single-flight flag cleared
+			g.open()
+			hub.reset()
+			time.Sleep(600 * time.Millisecond)
+			if n := int(atomic.LoadInt32(&nconn)); n > 2 || s.tc.reconCount() > 1 {
+				r.violate(Violation{What: fmt.Sprintf("a peer that answers every heartbeat was declared dead: a keepalive verdict formed on the replaced connection was acted on after the recovery had completed (%d connections instead of 2, %d reconnect callbacks)", n, s.tc.reconCount()),
+					Case: cs, Extra: strings.Join(s.tc.log.snapshot(), "\n")})
+			} else if n < 2 {
+				r.violate(Violation{What: "a peer that stopped answering was not detected / the connection was not recycled", Case: cs})
+			}
+			r.count("c15.tcp.stale-verdict")
+		} else {
+			g.open()
+			hub.reset()
+			close(holdAuth)
+			r.count("c15.tcp.stale-verdict.not-reached")
+		}
+		r.st.Evaluations++
+	} else {
+		close(holdAuth)
+	}
+	close(stop)
+	s.close()
+}
+
+// c15SlowButAnsweringAfterRecovery: every heartbeat is answered after 150 ms - later than the next tick (100 ms), well
+// inside the timeout (250 ms). On the first connection such a peer is left alone (first run); the same peer behind a
+// connection that a recovery has established must be left alone too (second run: connection 1 is silent).
+func (r *Run) c15SlowButAnsweringAfterRecovery() {
+	I, T := 100*time.Millisecond, 250*time.Millisecond
+	for _, firstSilent := range []bool{false, true} {
+		time.Sleep(I + 60*time.Millisecond)
+		hub.reset()
+		s := &session{tc: newTestClient(), v: 1, trans: "tcp"}
+		s.tcp = newTCPPeer()
+		stop := make(chan struct{})
+		var nconn int32
+		go func() {
+			for {
+				pc := s.tcp.accept(5 * time.Second)
+				if pc == nil {
+					return
+				}
+				if !pc.readHandshake(time.Second) {
+					continue
+				}
+				ci := int(atomic.AddInt32(&nconn, 1)) - 1
+				go func() {
+					for {
+						select {
+						case <-stop:
+							return
+						default:
+						}
+						f := pc.readFrame(50 * time.Millisecond)
+						if f == nil {
+							if pc.closed {
+								return
+							}
+							continue
+						}
+						if f.Type == 1 && f.Cmd == 1 && !(firstSilent && ci == 0) {
+							fr := respFrame(1, 1, f.Rid, 0, f.Body)
+							time.AfterFunc(150*time.Millisecond, func() { pc.send(fr) })
+						}
+					}
+				}()
+			}
+		}()
+		err := s.tc.dial(s.tcp.url(), 1, client.Keepalive(I), client.KeepaliveTimeout(T), client.DialTimeout(time.Second))
+		if err == nil {
+			time.Sleep(1800 * time.Millisecond)
+			n := int(atomic.LoadInt32(&nconn))
+			want := 1
+			cs := "tcp I=100ms T=250ms: every heartbeat answered after 150 ms"
+			if firstSilent {
+				want = 2
+				cs = "tcp I=100ms T=250ms: connection 1 never answers; every later connection answers every heartbeat after 150 ms"
+			}
+			if n > want {
+				r.violate(Violation{What: fmt.Sprintf("a peer that answers every heartbeat within the keepalive timeout was declared dead: %d connections instead of %d in 1.8 s", n, want), Case: cs,
+					Extra: strings.Join(s.tc.log.snapshot(), "\n")})
+			} else if n < want {
+				r.violate(Violation{What: "a peer that stopped answering was not detected / the connection was not recycled", Case: cs})
+			}
+			r.st.Evaluations++
+			r.count(fmt.Sprintf("c15.tcp.slow-but-answering.first-silent-%v", firstSilent))
+		}
+		close(stop)
+		s.close()
+	}
 }
 
 // c15HalfDeadButPinging: the peer never answers the client's heartbeats but keeps sending its own (which the client
